@@ -608,15 +608,29 @@ def synthetic_call_protocol(rec, F):
             continue
         rcs = [(bi, t) for bi, t in fn.calls() if lastseg(t["f"]) == "resolve_call"]
         pushes = [(bi, t) for bi, t in fn.calls() if lastseg(t["f"]) == "push" and "fiber::Fiber" in t["f"]]
-        if not rcs or not pushes:
+        # a Vm helper that only pushes (push_call_operands(first, args)) counts as its pushes
+        helped = []
+        for bi, t in fn.calls():
+            if "<impl laythe_vm::vm::Vm>" in t["f"] and lastseg(t["f"]) != "resolve_call":
+                ps = _push_summary(F, F.fn(t["f"]))
+                if ps is not None:
+                    helped.append((bi, t, ps))
+        if not rcs or not (pushes or helped):
             continue
         for rb, rt in rcs:
             before = [(bi, t) for bi, t in pushes if sem.reaches(fn, bi, rb)]
-            if not before:
+            hb = [(bi, t, ps) for bi, t, ps in helped if sem.reaches(fn, bi, rb)]
+            if not before and not hb:
                 continue
             n += 1
             inloop = [(bi, t) for bi, t in before if any(sem.reaches(fn, s_, bi) for s_ in fn.succ(bi))]
             straight = [x for x in before if x not in inloop]
+            for bi, t, (hs, hl) in hb:
+                if any(sem.reaches(fn, s_, bi) for s_ in fn.succ(bi)):
+                    inloop = inloop + [(bi, t)] * (hs + hl)
+                else:
+                    straight = straight + [(bi, t)] * hs
+                    inloop = inloop + [(bi, t)] * hl
             argc = rt["args"][2] if len(rt["args"]) > 2 else None
             cn = sem.const_int(argc) if argc is not None else None
             if cn is not None:
@@ -634,6 +648,25 @@ def synthetic_call_protocol(rec, F):
             if not ok:
                 rec.finding(R, "F4.call-proto/%s" % fn.name, "Vm::%s pushes %d value(s)%s and then calls resolve_call with %s argument(s): the protocol needs %s. The slot below the arguments is used as the callee slot, so a live stack value there (the local under the operands of a failing `1 + \"a\"`) is overwritten with the constructed object" % (fn.name, len(straight), " plus a loop" if inloop else "", cn if cn is not None else "args.len()", want), loc=loc_of(rt["sp"]), fn=fn.path)
     rec.floor(R, "VM functions that build a call frame themselves", n, 3)
+
+
+def _push_summary(F, g, depth=0):
+    """(straight-line pushes, pushes in a loop) of a Vm helper that pushes onto the current fiber and
+    makes no call itself; None when it does not push (or is not that simple)."""
+    if g is None or depth > 2 or g.kind == "Closure":
+        return None
+    if any(lastseg(t["f"]) in ("resolve_call", "run", "execute") for _, t in g.calls()):
+        return None
+    pushes = [(bi, t) for bi, t in g.calls() if lastseg(t["f"]) == "push" and "fiber::Fiber" in t["f"]]
+    if not pushes:
+        return None
+    inloop = [x for x in pushes if any(sem.reaches(g, s_, x[0]) for s_ in g.succ(x[0]))]
+    straight = [x for x in pushes if x not in inloop]
+    # every straight-line push is unconditional (dominates the return)
+    rets = [b for b in g.reachable if g.blocks[b]["t"]["k"] == "return"]
+    if not all(all(g.dominates(bi, r) for r in rets) for bi, _ in straight):
+        return None
+    return (len(straight), len(inloop))
 
 
 def runtime_error_has_error(rec, F):
